@@ -382,8 +382,11 @@ func c19WebRun(x *h.Ctx, c c19WebCase) {
 		idStr = c19WebDIDs["root"]
 	}
 	body, applied := c.Plan.Apply(c19WebSeed(((c.Seed%3)+3)%3, idStr))
-	if applied.Oversize {
-		x.Class("skipped:oversize")
+	// 16 KiB bound for this target: go-did base58-decodes publicKeyBase58 / publicKeyMultibase of any length with a
+	// quadratic decoder (120 KB take 4 s per PublicKey() call, 1 MiB minutes). That terminates, so it is not this oracle's
+	// business (reported as an observation); without the bound it only produces load-dependent deadline hits.
+	if applied.Oversize || len(body) > 16*1024 {
+		x.Class("skipped:oversize(>16KiB)")
 		return
 	}
 	for _, cl := range applied.Classes() {
